@@ -135,7 +135,7 @@ def c02(tier, seed):
     r = parse_family("C02", tier, seed, [
         ("X", {"cases": gen.opt_cases(seed + 5, _sizes(tier, 900, 12000))}),
         ("X", {"cases": g1 + g2 + gen.skip_trivia_cases() + gen.skip_name_cases() + gen.skip_rep_cases()
-                         + gen.squash_order_cases()}),
+                         + gen.skip_after_squash_cases() + gen.squash_order_cases()}),
         ("G3", {}),
     ], ["C02"])
     r.rule = RULE_PARSE + (" Each grammar comes with an optimizer configuration: the default pipeline, one pass alone, or a "
